@@ -2,6 +2,8 @@
 // Case (see coq/C19/Model.v run_case):
 //   activeLevel prefixN nGroups { capLen cap.. level nOpts { nameLen name.. alias neg level flag arg? impl? dflt? descLen desc.. }* }*
 //   x? : 0 | 1 len bytes
+//   The groups are OptionGroups handed to OptionContext::add in this order; captions may repeat (with different levels): the context
+//   merges them (the model does the same merge: coq/C19/Model.v add_group).
 //   optional trailer (NOT read by the model: it does not change the context a correct implementation ends up with):
 //   nDirectives { group k kind target nTail }*   - see struct Directive
 // Observation: [-997 if the context is inconsistent after the adds] per option (context order) nameLen name.. alias level neg ; descLen desc.. fault(0) ; defsLen defs.. ;
@@ -129,6 +131,9 @@ int main() {
 		{
 			size_t listed = 0;
 			for (size_t g = 0; g != ng; ++g) {
+				bool seen = false;   // groups of the case with equal captions are one group of the context (merged by add)
+				for (size_t h = 0; h != g; ++h) seen = seen || groups[h].cap == groups[g].cap;
+				if (seen) continue;
 				const Po::OptionGroup* grp = ctx.tryFindGroup(groups[g].cap);
 				if (!grp) { anomaly = true; continue; }
 				for (Po::OptionGroup::option_iterator it = grp->begin(); it != grp->end(); ++it, ++listed) {
